@@ -62,6 +62,75 @@ type World struct {
 	mu       sync.Mutex
 	calls    []Call
 	nodes    map[string]interface{}
+	// NilForm: how an absent node (null where an object, interface or union is declared) is handed over:
+	// 0 nothing at all (nil), 1 a nil pointer of the node's Go type, 2 a nil map (where the strategy has nodes that are maps)
+	NilForm int
+	// WrapNode: a node (resolver strategy) handed out as a struct VALUE whose only field is a nil pointer; it is an
+	// object like any other, not a null
+	WrapNode string
+}
+
+// wrapNode is a resolver whose Go value consists of one nil pointer (the node it stands for is the world's WrapNode).
+type wrapNode struct{ none *World }
+
+var wrapTarget *World
+
+func (n wrapNode) Resolve(field *ggql.Field, args map[string]interface{}) (interface{}, error) {
+	return wrapTarget.resolveVia("iface", wrapTarget.WrapNode, field, args)
+}
+
+// SetWrapNode chooses the node realised as a wrapNode value ("" = none).
+func (w *World) SetWrapNode(id string) {
+	if w.Strategy != Iface {
+		return
+	}
+	delete(w.nodes, w.WrapNode)
+	delete(w.nodes, id)
+	w.WrapNode = id
+}
+
+// resMap is a node of the resolver strategy realised as a map; only its nil value is ever handed out.
+type resMap map[string]interface{}
+
+func (m resMap) Resolve(field *ggql.Field, args map[string]interface{}) (interface{}, error) {
+	return nil, fmt.Errorf("Resolve called on a nil node for %s", field.Name)
+}
+
+func (w *World) typedNil(typeName string) interface{} {
+	st := w.Strategy
+	if st == Mixed || w.NilForm%3 == 0 {
+		return nil
+	}
+	switch st {
+	case Iface:
+		if w.NilForm%3 == 2 {
+			return resMap(nil)
+		}
+		return (*resNode)(nil)
+	case Any:
+		if w.NilForm%3 == 2 {
+			return map[string]interface{}(nil)
+		}
+		return (*anyNode)(nil)
+	case Refl:
+		return refluni.NilOf(typeName)
+	}
+	return nil
+}
+
+// absent replaces the nil members of a list of nodes by the world's form of an absent node.
+func (w *World) absent(out interface{}, typeName string) interface{} {
+	if l, ok := out.([]interface{}); ok && w.NilForm%3 != 0 {
+		for i, e := range l {
+			switch ev := e.(type) {
+			case nil:
+				l[i] = w.typedNil(typeName)
+			case []interface{}:
+				l[i] = w.absent(ev, typeName)
+			}
+		}
+	}
+	return out
 }
 
 // NewWorld loads the universe's schema into a fresh root and builds the data graph.
@@ -197,6 +266,9 @@ func (w *World) node(id string) interface{} {
 	switch st {
 	case Iface:
 		n = &resNode{w: w, id: id}
+		if id == w.WrapNode && id != "" {
+			n = wrapNode{}
+		}
 	case Refl:
 		if w.Binding == BindRegisterLate {
 			n = refluni.NewAlt(w, w.U.NodeType[id], id)
@@ -359,6 +431,15 @@ func (w *World) resolveVia(via, id string, field *ggql.Field, args map[string]in
 		return nil, es
 	}
 	out := w.toGo(v, 0)
+	if fd, has := w.U.Types[w.U.NodeType[id]].Fields[field.Name]; has && fd.Type != nil {
+		base := fd.Type.Base()
+		if td, ok := w.U.Types[base]; ok && (td.Kind == "OBJECT" || td.Kind == "INTERFACE" || td.Kind == "UNION") {
+			if v.K == "null" {
+				return w.typedNil(base), nil
+			}
+			out = w.absent(out, base)
+		}
+	}
 	if field.Name == "pv" { // the struct itself, not a pointer to it (reflection strategy)
 		switch p := out.(type) {
 		case *refluni.P:
@@ -755,6 +836,7 @@ func FromResult(res map[string]interface{}, calls []Call) *Actual {
 
 // Run executes a case on this world through ResolveString (parse + resolve).
 func (w *World) Run(c *Case, lo Layout) *Actual {
+	wrapTarget = w
 	w.SetFaults(c.Faults)
 	w.TakeCalls()
 	vars := VarsToGo(c.Vars)
@@ -765,6 +847,7 @@ func (w *World) Run(c *Case, lo Layout) *Actual {
 // RunExe resolves an already parsed executable and assembles the response the
 // way Root.ResolveReader does.
 func (w *World) RunExe(exe *ggql.Executable, op string, vars ValMap) *Actual {
+	wrapTarget = w
 	w.TakeCalls()
 	result, err := w.Root.ResolveExecutable(exe, op, VarsToGo(vars))
 	if result == nil {
